@@ -693,9 +693,12 @@ def _driver_case(case):
            "  use field_mod, only: field_type, field_proxy_type",
            "  use integer_field_mod, only: integer_field_type, "
            "integer_field_proxy_type",
-           "  type(field_type) :: f1, f2, f3, g1, g2, fvec(3), farr(2)",
-           "  type(integer_field_type) :: m1, m2, mvec(2)",
-           "  type(state_type) :: state",
+           # SAVE: no automatic finalisation at the end of the subroutine
+           # (gfortran 12 crashes in the finaliser it generates for a
+           # derived type with arrays of finalisable components)
+           "  type(field_type), save :: f1, f2, f3, g1, g2, fvec(3), farr(2)",
+           "  type(integer_field_type), save :: m1, m2, mvec(2)",
+           "  type(state_type), save :: state",
            "  real(r_def) :: ra, rb, s1, s2",
            "  integer(i_def) :: kn, idx, jdx",
            "  type(field_proxy_type) :: prx",
